@@ -4,6 +4,6 @@ cd /verif
 seed=${1:-0}; tier=${2:-quick}
 for c in $(/venv/bin/python -c "import json; print(' '.join(x['property_id'] for x in json.load(open('MANIFEST.json'))['checks']))"); do
   s=$(date +%s)
-  out=$(VERIF_SEED=$seed VERIF_NO_EVIDENCE=${NOEV:-1} ./check $c --tier $tier 2>&1); rc=$?
+  out=$(VERIF_SEED=$seed VERIF_NO_EVIDENCE=${NOEV-1} ./check $c --tier $tier 2>&1); rc=$?
   echo "$c rc=$rc $(( $(date +%s) - s ))s $(echo "$out" | grep -c '^VIOLATION') violations; $(echo "$out" | tail -1 | cut -c1-160)"
 done
